@@ -340,7 +340,9 @@ def draw(rng: random.Random, classes, nmax: int):
     if cls == "gadget":
         return gadget_net(rng, max_vars=rng.randint(3, nmax))
     if cls == "overlap-maa":
-        return overlap_maa(rng)
+        if nmax < 7:
+            return gadget_net(rng, max_vars=max(3, nmax))
+        return overlap_maa(rng, variant=None if nmax >= 9 else rng.choice([2, 3]))
     if cls == "inputs":
         base = draw(rng, [("rand", 2), ("gadget", 2)], nmax)
         return with_inputs(rng, base, rng.randint(1, 2))
